@@ -25,8 +25,10 @@ exit timer's deadline (`exitAt`, `timerDue`) and the timeout handed to the poll 
 (`Step.cleanup`, under lock_: patches/C01-03), `runLoop()` from inside a callable (`Act.nestedRun`, refused while
 the loop is running: patches/C01-04), and the water line / statistics (`wlIn`, `wlNext`, `notices`, `inPeak`,
 `nextPeak`: written, never read by anything else).
+Round 8: the queries `isRunning()` / `isInLoopThread()` as observation functions of the state (`isRunning`, `inLoopThread`),
+asked by any thread at any point (ops `query`, script act `q`).
 Not modelled: RunId wrap-around at 2^64 (theorems carry `NoWrap`), exitLoop() from a thread other than the loop
-thread (unsynchronised in the code: see plugin ASSUMPTIONS), `runLoop()` from a callable of a destructor /
+thread (unsynchronised in the code and outside the statement: see the round-8 (3) section of Props.lean), `runLoop()` from a callable of a destructor /
 `cleanup()` drain (the loop is not running there: `valid` refuses the act).
 -/
 namespace Tbox.C01
@@ -187,6 +189,15 @@ with the loop idle that is `runNext`: the loop itself submits a deferred task (e
 an odd run id. -/
 def dropExitTimer (s : State) (tid : Nat) : State :=
   if s.exitTimer then { submitNext s tid [] with exitTimer := false, timerDue := false } else s
+
+/-- `isRunning()` (under lock_): `sp_run_read_event_ != nullptr` — set by runThisBeforeLoop, reset by runThisAfterLoop
+in the same critical sections that open / close the eventfd -/
+def isRunning (s : State) : Bool := s.efd.isSome
+
+/-- `isInLoopThread()` (under lock_) asked by thread `tid`: `this_thread::get_id() == loop_thread_id_`.  loop_thread_id_ is
+written together with sp_run_read_event_ and cleared by runThisAfterLoop; a destructor / cleanup() drain does not set it
+(the model's `loopTid` is then only the ghost "thread doing the drain") -/
+def inLoopThread (s : State) (tid : Nat) : Bool := s.efd.isSome && tid == s.loopTid
 
 /-- one API call made by thread `tid` (the loop thread, or the owner while the loop is idle) -/
 def doAct (cfg : Cfg) (s : State) (tid : Nat) : Act → State
